@@ -589,3 +589,27 @@ def exec_script(run, exe, args, script_text, trace_path, what, timeout=900, env=
         raise Violation("%s: real code crashed / sanitizer report / assertion after %d events: %s" % (
             what, n, err.strip().splitlines()[0][:200] if err.strip() else ""), replay=rp)
     return trace_path
+
+
+CLANG_TSAN = ["clang", "-std=gnu11", "-O1", "-g", "-fsanitize=thread", "-fno-omit-frame-pointer", "-DLIBRFN_VERIF"]
+
+
+def build_vrt(run, name, driver_src, repo_srcs, extra_flags=()):
+    """librfn sources + driver compiled with the TSan *instrumentation* only, linked against harness/vrt.c
+    (our own __tsan_* entry points) instead of libtsan."""
+    objs = []
+    inc = ["-I" + os.path.join(REPO, "include"), "-I" + HARNESS]
+    srcs = [(os.path.join(HARNESS, driver_src), True)] + [(os.path.join(REPO, s), True) for s in repo_srcs] + \
+           [(os.path.join(HARNESS, "vrt.c"), False)]
+    for i, (src, inst) in enumerate(srcs):
+        o = run.path("%s-%d.o" % (name, i))
+        cmd = (list(CLANG_TSAN) if inst else ["clang", "-std=gnu11", "-O1", "-g"]) + list(extra_flags) + inc + ["-c", src, "-o", o]
+        rc, out = sh(cmd, timeout=600)
+        if rc != 0:
+            raise Infra("build of %s failed:\n%s" % (src, out[-4000:]))
+        objs.append(o)
+    exe = run.path(name)
+    rc, out = sh(["clang", "-o", exe] + objs, timeout=600)
+    if rc != 0:
+        raise Infra("link of %s failed:\n%s" % (name, out[-4000:]))
+    return exe
